@@ -186,18 +186,37 @@ func joinTokens(toks []string) string {
 
 var gapChoices = []string{" ", "  ", "\n", "\t", " /* c */ ", "/**/", " // c\n", "\r\n", " /* 'q' ) */ ", "\r", " // c\r", " // + 1\r\n", " //\n"}
 
+// commentFragments: what a comment may hold — anything, including bytes that are not UTF-8
+var commentFragments = []string{"c", "é", "日", "\xff", "\xc3", "\xe2\x82", "'", "\"", "`", ")", "(", "+ 1", "*", "/", "@", "$this", "\\", " ", "😀"}
+
+// genGap: one of the fixed gaps, or a generated comment
+func genGap(s Src) string {
+	if !s.Prob(20) {
+		return pickOne(s, gapChoices)
+	}
+	body := ""
+	for i, n := 0, s.Intn(4); i < n; i++ {
+		body += pickOne(s, commentFragments)
+	}
+	if s.Bool() {
+		body = strings.ReplaceAll(body, "*/", "* /")
+		return " /*" + body + "*/ "
+	}
+	return " //" + body + pickOne(s, []string{"\n", "\r", "\r\n"})
+}
+
 // decorateTokens draws a gap for every token boundary.
 func decorateTokens(s Src, toks []string) string {
 	var sb strings.Builder
 	if s.Prob(30) {
-		sb.WriteString(pickOne(s, gapChoices))
+		sb.WriteString(genGap(s))
 	}
 	for i, t := range toks {
 		if i > 0 {
 			if tightOK(toks[i-1], t) && s.Prob(50) {
 				// no gap
 			} else {
-				g := pickOne(s, gapChoices)
+				g := genGap(s)
 				if toks[i-1] == "/" && strings.HasPrefix(g, "/") {
 					g = " " + g // "/" followed by "/*" or "//" would start a comment
 				}
@@ -207,7 +226,7 @@ func decorateTokens(s Src, toks []string) string {
 		sb.WriteString(t)
 	}
 	if s.Prob(30) {
-		sb.WriteString(pickOne(s, gapChoices))
+		sb.WriteString(genGap(s))
 	}
 	return sb.String()
 }
